@@ -135,7 +135,7 @@ pub mod sync {
         s ^= s >> 12;
         s ^= s << 25;
         s ^= s >> 27;
-        s = s.wrapping_add(id as u64 * 0x9E37_79B9_7F4A_7C15);
+        s = s.wrapping_add((id as u64).wrapping_mul(0x9E37_79B9_7F4A_7C15));
         DELAY_STATE.store(s | 1, Ordering::SeqCst);
         let r = s.wrapping_mul(0x2545_F491_4F6C_DD1D) >> 33;
         match r % 4 {
